@@ -96,10 +96,11 @@ TEXT = {
         "technique": "Lean 4 proof (stack machine refines recursive specification) + kernel-decided table instantiation + correspondence",
     },
     "C04": {
-        "level": "Partial. Lean theorems over the regenerated tables: Pos() and End() never panic on any tree shaped like the catalogue of ast.go (all 264 kinds, every "
-                 "optional child present or absent) — the table well-formedness is re-decided by the kernel on every run — and agree with the documented expressions; "
-                 "Walk terminates with the specified events. SQL() totality and the link 'the parser returns only catalogue-shaped trees' are not proved: SQL(), Pos(), "
-                 "End(), Walk, Inspect, Preorder are executed under recover on every node of every tree returned for the corpus, probes, mutations and expression soups.",
+        "level": "Partial. Lean theorems over tables regenerated from ast.go, pos.go, walk_internal.go and sql.go on every run: Pos(), End() and SQL() never panic on any tree "
+                 "that is shaped like the catalogue and carries the children its kind's SQL() body dereferences unconditionally (a decidable predicate derived from the tables; "
+                 "table well-formedness re-decided by the kernel on every run); every expression kind that can reach paren() has a precedence row (BadExpr exempt, deliberately); "
+                 "Walk terminates with the specified events. The link 'the parser returns only such trees' is not proved: SQL(), Pos(), End(), Walk, Inspect, Preorder are "
+                 "executed under recover on every node of every tree returned for the corpus, probes, mutations, grafts and expression soups.",
         "design_ref": "DESIGN.md §4 C04",
         "note": "Trusted: translator + interpreters (TREE channel); SQL()/parser link by exploration only.",
         "technique": "Lean 4 proof over regenerated tables (decide +kernel instantiation) + execution of all four operations on every node of explored trees",
